@@ -27,7 +27,7 @@ CHECKS = {
     design='4 C11', note=TB + '; grammar DFAs of float()/int() and the two regexes are the stub contract (self-test compares them with CPython on an adversarial corpus); non-ASCII outside'),
  'C12': dict(
     technique='bounded symbolic execution of the real TypedField/FloatField/EnumField.value on an SMT-chosen tagged return value with symbolic payload; rounding grid/band by SMT query',
-    text='For every field class and places in {0,2,5} the definition returns a value whose tag (None, bool, int, float, blank text, text, member of the right / of another enum) is an SMT choice and whose payload is symbolic; on each path the stored result must have exactly the declared type, None/blank must become the empty value, money must be on the 10^-places grid within half a unit of the returned value (z3), and every other tag must raise a TypeError naming the line. Violations are replayed on the real code.',
+    text='For every field class and places in {0,2,5} the definition returns a value whose tag (None, bool, int, float, blank text, text, member of the right / of another enum, an IntEnum member, an instance of a str or float subclass) is an SMT choice and whose payload is symbolic; on each path the stored result must have exactly the declared type, None/blank must become the empty value, money must be on the 10^-places grid within half a unit of the returned value (z3), and every other tag must raise a TypeError naming the line. Violations are replayed on the real code.',
     design='4 C12', note=TB + '; banded rounding model (DESIGN 3.3)'),
  'C18': dict(
     technique='symbolic execution of the real ButtonPDFField.value and mapping lambdas on a symbolic driving value per check-box group, and of needs_filing() on symbolic line values (z3 decides exclusivity / fileability); finite-domain comparison of every mapping with the field tree parsed from the bundled PDFs',
@@ -35,7 +35,7 @@ CHECKS = {
     design='4 C18', note=TB + '; hv.pdftemplate parser (XFA names cross-checked against AcroForm names); oracle/pdf_label_exceptions.json'),
  'C20': dict(
     technique='exhaustive exploration, with SMT-enumerated session variables (missing-input subset, cut index k, interruption kind), of the real habutax.solve(args) with prompting and write-back over real temp files; base inputs from the whole-return model',
-    text='Sessions of the real CLI solve path (real configparser, real temp files, scripted input()) are enumerated exhaustively: every non-empty subset of 4 (quick) / 6 candidate inputs missing from the file, every prompt index k at which the session is cut, by KeyboardInterrupt, EOFError, or by reaching the unsupported Schedule 2. Afterwards the file must parse, hold every prior value and every answer given before the cut, and a re-run must not ask for those again. The base input assignment is a solved return found by z3 on the whole-return model. (Q1: finite-domain exploration; each session is a concrete run.)',
+    text='Sessions of the real CLI solve path (real configparser, real temp files, scripted input()) are enumerated exhaustively: every non-empty subset of 4 (quick) / 6 candidate inputs missing from the file, every prompt index k at which the session is cut, by KeyboardInterrupt, EOFError, by an answer the input rejects followed by Ctrl-C at the retry prompt, or by reaching the unsupported Schedule 2. Afterwards the file must parse, hold every prior value and every answer given before the cut, and a re-run must not ask for those again. The base input assignment is a solved return found by z3 on the whole-return model. (Q1: finite-domain exploration; each session is a concrete run.)',
     design='4 C20', note=TB + '; a deterministically failing line after a prompt is not available in the shipped forms (covered through the unsupported-form abort only)'),
  'C19': dict(
     technique='bounded symbolic execution of the real PDFFiller._create_fdf on a symbolic printable-ASCII value followed by a symbolic reference decoder of the PDF literal-string syntax (z3: decoded == value and the dictionary closes, on every path); the real PDFFiller.fill with stubbed pdftk on SMT-chosen subsets of the sections of a solved solution',
